@@ -1673,6 +1673,14 @@ func (ex *Exec) rangeStmt(st *State, s *ast.RangeStmt, label string) []flow {
 	k0 := intLit(0)
 	ex.preTouch(st, s.Body)
 	ex.recordLoopPre(st, path)
+	if x != nil && x.Term != nil {
+		nr := map[string]*Val{}
+		for k, v := range st.loopRanged {
+			nr[k] = v
+		}
+		nr[path] = x
+		st.loopRanged = nr
+	}
 	ex.loopInvs(st, ls, path, "init", false, s.Pos(), shadow, counter, k0)
 	ms := ex.modified(s.Body)
 	// the key/value variables are assigned by the loop itself
